@@ -211,3 +211,24 @@ def gen(rnd, tier):
 def shrink(c):
     for s in T.shrink_spec(c["tier"]):
         yield dict(c, tier=s)
+
+
+# living-object histories (harness/living.py): every generated history is ALSO run on one living tier object, and
+# sandwiches op ; mutation ; op ride along
+import living  # noqa: E402
+_histories_stepwise = histories
+
+
+def histories(rnd, n, maxlen):
+    buf, h = [], None
+    for c in _histories_stepwise(rnd, n, maxlen):
+        if c.get("hist") != h and buf:
+            yield from living.from_history(buf)
+            buf = []
+        h = c.get("hist")
+        buf.append(c)
+        yield c
+    yield from living.from_history(buf)
+
+
+living.install(globals(), rate=0.05)
